@@ -30,7 +30,7 @@ type c11Case struct {
 	Readers  int   `json:"readers"`
 	Flushers int   `json:"flushers"`
 	Rounds   int   `json:"rounds"`
-	// Departers: 0/1 goroutine that keeps opening Modify sessions whose transport fails while a request of
+	// Departers: goroutines that keep opening Modify sessions whose transport fails while a request of
 	// several operations is being answered.  Abandoners: Get readers that go away mid-stream (at once or after a stall).
 	Departers  int `json:"departers,omitempty"`
 	Abandoners int `json:"abandoners,omitempty"`
@@ -203,12 +203,13 @@ func runCase(c c11Case) (problem string, stats map[string]int) {
 			}
 		}()
 	}
-	if c.Departers > 0 {
+	for dp := 0; dp < c.Departers; dp++ {
+		dp := dp
 		wgB.Add(1)
 		go func() {
 			defer wgB.Done()
-			r := drv.NewRng(c.Seed*100 + 77)
-			opid := uint64(90) << 32
+			r := drv.NewRng(c.Seed*100 + 77 + int64(dp))
+			opid := uint64(90+dp) << 32
 			for {
 				select {
 				case <-stop:
@@ -220,9 +221,15 @@ func runCase(c c11Case) (problem string, stats map[string]int) {
 					fail("departing session: " + err.Error())
 					return
 				}
-				if rs, err := s.SendN(&spb.ModifyRequest{Params: &spb.SessionParameters{Redundancy: 1, Persistence: 1}}, 1); err != nil || len(rs) != 1 {
+				if rs, err := s.SendN(&spb.ModifyRequest{Params: &spb.SessionParameters{Redundancy: 1, Persistence: 1}}, 1); err != nil {
 					fail(fmt.Sprintf("departing session could not negotiate: %v\n%s", err, stacks()))
 					return
+				} else if len(rs) != 1 {
+					// refused: another departing session had connected and not negotiated yet (it counts with default parameters)
+					mu.Lock()
+					stats["negotiations_refused"]++
+					mu.Unlock()
+					continue
 				}
 				// it announces a low id (usually not the highest; if it is, it is the primary and is recorded like any other)
 				el := drv.U128{Lo: uint64(1 + r.Intn(3))}
@@ -411,9 +418,9 @@ func run(args []string) error {
 	} else {
 		r := drv.NewRng(*f.Seed)
 		for i := 0; i < *f.N; i++ {
-			c := c11Case{Seed: *f.Seed*1000 + int64(i), Sessions: 2 + r.Intn(3), Readers: r.Intn(3), Flushers: r.Intn(2), Rounds: 60 + r.Intn(120)}
+			c := c11Case{Seed: *f.Seed*1000 + int64(i), Sessions: 2 + r.Intn(3), Readers: r.Intn(3), Flushers: r.Intn(3), Rounds: 60 + r.Intn(120)}
 			if i%2 == 1 {
-				c.Departers, c.Abandoners = r.Intn(2), r.Intn(3)
+				c.Departers, c.Abandoners = r.Intn(3), r.Intn(3)
 				if i%4 == 1 {
 					c.Flushers = 0
 				}
